@@ -49,6 +49,15 @@ def run(ck: vlib.Check):
                          ("new-switch", {"pool": {"locs": [], "cuwps": [], "switches": [["pressure switch", None]]},
                                          "ops": [c11._trigs(c11._switch_acts([0]))]})):
             cases.append((f"{label}:{nm}", base, spec, label))
+    # maps whose triggers use the lowest unnamed switch numbers, to which one new named and one new nameless switch are added
+    for k in range(2):
+        lowb = SC.MapGen(random.Random(rng.randrange(10 ** 9)), "editor", nloc=255, all_sections=True, ntrig=2,
+                         use_low_switches=True, swnm_density=(0.05, 0.5)[k]).build()
+        press.append((f"low-switches:{k}", lowb))
+        for nm, sw in (("named", [["a brand new switch", None]]), ("nameless", [[None, None]])):
+            cases.append((f"low-switches:{k}:{nm}", lowb,
+                          {"pool": {"locs": [], "cuwps": [], "switches": sw}, "ops": [c11._trigs(c11._switch_acts([0]))]},
+                          f"low-switches:{k}"))
     unedited = {label: RC.impl_load_save(b) for label, b in bs + press}
     for i in range(n):
         label, base = bs[i % len(bs)]
